@@ -11,6 +11,7 @@
 #include "ops.hpp"
 
 #include <yorel/yomm2/core.hpp>
+#include <yorel/yomm2/keywords.hpp>
 
 #include <cstring>
 #include <new>
@@ -31,12 +32,21 @@ struct Animal {
 };
 struct Dog : Animal {
     int d = 2;
+    int member_kick() {
+        g_member_this = this;
+        return 701;
+    }
+    static inline const void* g_member_this = nullptr;
 };
 struct Cat : Animal {
     int c = 3;
 };
 struct Bulldog : Dog {
     int b = 4;
+    int member_kick_bulldog() {
+        g_member_this = this;
+        return 702;
+    }
 };
 struct Property {
     virtual ~Property() {
@@ -83,6 +93,8 @@ struct Seen {
     const void* most_derived[4] = {};
     int n = 0;
     int next_code = 0;
+    int vptr_bad = 0; // a virtual_ptr received by a definition does not hold
+                      // its class's v-table pointer
 };
 Seen g_seen;
 
@@ -189,6 +201,8 @@ struct Lab {
     struct k_vkick;
     struct k_pkick;
     struct k_skick;
+    struct k_mkick;
+    using mkick = y2::method<k_mkick, int(y2::virtual_<Animal*>), P>;
     using kick = y2::method<k_kick, int(y2::virtual_<Animal&>), P>;
     using meet = y2::method<k_meet, int(y2::virtual_<Animal&>, int, y2::virtual_<Animal&>), P>;
     using own = y2::method<k_own, int(y2::virtual_<Property&>), P>;
@@ -277,14 +291,40 @@ struct Lab {
     static int vkick_vbase(VBase& x) {
         return see1(403, x);
     }
+    // the pointer a definition receives was cast to its class: it must still
+    // carry the v-table pointer of the object's dynamic class
+    template<class V>
+    static void check_vptr(const V& x) {
+        const std::uintptr_t* want = nullptr;
+        auto& a = *x;
+        const std::type_info& t = typeid(a);
+        if (t == typeid(Dog))
+            want = P::template static_vptr<Dog>;
+        else if (t == typeid(Bulldog))
+            want = P::template static_vptr<Bulldog>;
+        else if (t == typeid(RoboDog))
+            want = P::template static_vptr<RoboDog>;
+        else if (t == typeid(Cat))
+            want = P::template static_vptr<Cat>;
+        else if (t == typeid(Animal))
+            want = P::template static_vptr<Animal>;
+        if (x._vptr() != want)
+            g_seen.vptr_bad = 1;
+    }
     static int pkick_dog(y2::virtual_ptr<Dog, P> x) {
-        return see1(501, *x);
+        int r = see1(501, *x);
+        check_vptr(x);
+        return r;
     }
     static int pkick_animal(y2::virtual_ptr<Animal, P> x) {
-        return see1(502, *x);
+        int r = see1(502, *x);
+        check_vptr(x);
+        return r;
     }
     static int pkick_robodog(y2::virtual_ptr<RoboDog, P> x) {
-        return see1(503, *x);
+        int r = see1(503, *x);
+        check_vptr(x);
+        return r;
     }
     static int skick_dog(const std::shared_ptr<Dog>& x) {
         return see1(601, *x);
@@ -292,12 +332,6 @@ struct Lab {
     static int skick_animal(const std::shared_ptr<Animal>& x) {
         return see1(602, *x);
     }
-    // member function definition
-    struct Kicker {
-        int kick_cat_member() {
-            return 0;
-        }
-    };
 
     static std::vector<Item>& items() {
         static std::vector<Item> v = build();
@@ -409,6 +443,7 @@ struct Lab {
         v.push_back(method_item<vkick>("vkick", 3, {cVBase}));
         v.push_back(method_item<pkick>("pkick", 4, {cAnimal}));
         v.push_back(method_item<skick>("skick", 5, {cAnimal}));
+        v.push_back(method_item<mkick>("mkick", 6, {cAnimal}));
         // definitions
         v.push_back(def_item<kick, typename kick::template add_function<kick_dog>>("kick(Dog)", 0, {cDog}, 101));
         v.push_back(def_item<kick, typename kick::template add_function<kick_bulldog>>("kick(Bulldog)", 0, {cBulldog}, 102));
@@ -438,6 +473,8 @@ struct Lab {
         v.push_back(def_item<pkick, typename pkick::template add_function<pkick_robodog>>("pkick(RoboDog)", 4, {cRoboDog}, 503));
         v.push_back(def_item<skick, typename skick::template add_function<skick_dog>>("skick(Dog)", 5, {cDog}, 601));
         v.push_back(def_item<skick, typename skick::template add_function<skick_animal>>("skick(Animal)", 5, {cAnimal}, 602));
+        v.push_back(def_item<mkick, typename mkick::template add_member_function<&Dog::member_kick>>("mkick(Dog::member_kick)", 6, {cDog}, 701));
+        v.push_back(def_item<mkick, typename mkick::template add_member_function<&Bulldog::member_kick_bulldog>>("mkick(Bulldog::member_kick_bulldog)", 6, {cBulldog}, 702));
         return v;
     }
 
@@ -587,6 +624,19 @@ struct Lab {
                 r.ret = skick::fn(*sp);
                 break;
             }
+            case 6: {
+                Animal* a = as_animal(tuple[0]);
+                r.expect_md[0] = md(*a);
+                Dog::g_member_this = nullptr;
+                r.ret = mkick::fn(a);
+                // the member function ran on the very object
+                g_seen.code = r.ret;
+                g_seen.n = 1;
+                g_seen.most_derived[0] = Dog::g_member_this
+                    ? dynamic_cast<const void*>(static_cast<const Dog*>(Dog::g_member_this))
+                    : nullptr;
+                break;
+            }
             }
         } catch (TwThrow& t) {
             r.threw = true;
@@ -624,6 +674,68 @@ using namespace y2::policy;
 struct tw_dbg : debug::rebind<tw_dbg> {};
 struct tw_rel : release::rebind<tw_rel> {};
 struct tw_ind : basic_policy<tw_ind, std_rtti, fast_perfect_hash<tw_ind>, vptr_vector<tw_ind>, basic_indirect_vptr<tw_ind>, vectored_error<tw_ind>> {};
+
+// ---- macro world: the keyword macros (register_classes, declare_method,
+// define_method with next) on a policy of their own, registered during static
+// initialisation as in an ordinary program; checked once per run
+
+namespace macro_world {
+struct MAnimal {
+    virtual ~MAnimal() {
+    }
+};
+struct MDog : MAnimal {};
+struct MBulldog : MDog {};
+struct MCat : MAnimal {};
+struct mw_policy : y2::policy::debug::rebind<mw_policy> {};
+
+register_classes(MAnimal, MDog, MBulldog, MCat, mw_policy);
+declare_method(int, mwkick, (virtual_<MAnimal&>, int), mw_policy);
+define_method(int, mwkick, (MDog&, int x)) {
+    return 100 + x;
+}
+define_method(int, mwkick, (MBulldog & d, int x)) {
+    return 200 + next(d, x);
+}
+declare_method(int, mwmeet, (virtual_<MAnimal&>, virtual_<MAnimal&>), mw_policy);
+define_method(int, mwmeet, (MDog&, MCat&)) {
+    return 1;
+}
+define_method(int, mwmeet, (MAnimal&, MAnimal&)) {
+    return 2;
+}
+
+// returns "" or what went wrong
+std::string check() {
+    mw_policy::error = &tw_handler;
+    try {
+        y2::update<mw_policy>();
+    } catch (TwThrow&) {
+        return "update of the macro world reported an error";
+    }
+    MDog dog;
+    MBulldog bulldog;
+    MCat cat;
+    MAnimal& d = dog;
+    MAnimal& b = bulldog;
+    MAnimal& c = cat;
+    if (mwkick(d, 5) != 105)
+        return "define_method(MDog) not reached";
+    if (mwkick(b, 5) != 305)
+        return "next inside define_method(MBulldog) did not reach MDog's definition";
+    bool threw = false;
+    try {
+        mwkick(c, 5);
+    } catch (TwThrow& t) {
+        threw = t.alt == EA_RESOLUTION && t.status == 1;
+    }
+    if (!threw)
+        return "mwkick(MCat) did not raise 'no definition'";
+    if (mwmeet(d, c) != 1 || mwmeet(b, c) != 1 || mwmeet(c, d) != 2 || mwmeet(c, c) != 2)
+        return "two-argument method declared with the macros dispatches wrongly";
+    return "";
+}
+} // namespace macro_world
 
 // ---- a case: {"policy": name, "events": [["load", k], ["unload", k], ["update"], ["check"]]}
 
@@ -869,6 +981,10 @@ struct TwExec {
                     for (int i = 0; i < r.seen.n; ++i)
                         if (r.seen.most_derived[i] != r.expect_md[i])
                             obs += "!obj";
+                    if (r.seen.vptr_bad) {
+                        obs += "!vptr";
+                        fail("C09", "cast-vptr", where + ": the virtual_ptr received by the definition does not hold its class's v-table pointer");
+                    }
                     table[key] = obs;
                     if (want.kind == RES_DEF) {
                         int code = code_of_def[want.def];
@@ -945,6 +1061,11 @@ template<class P>
 MiniOutcome tw_run_t(const J& c) {
     MiniOutcome o;
     TwExec<P> ex;
+    {
+        std::string why = macro_world::check();
+        if (!why.empty())
+            ex.viols.push_back({why.find("next") != std::string::npos ? "C03" : "C01", "macro-world", why});
+    }
     ex.run(c.at("events").a);
     auto hist_table = ex.table;
     std::vector<int> final_order = ex.order;
@@ -1029,7 +1150,7 @@ J tw_gen(std::uint64_t seed, int tier, long) {
     static const char* pols[] = {"tw_dbg", "tw_rel", "tw_ind"};
     c.set("policy", pols[r.below(3)]);
     // which part of the menu this run may use (swarm)
-    int nitems = 46;
+    int nitems = 49;
     std::vector<int> enabled;
     double p = 0.35 + 0.5 * (r.below(100) / 100.0);
     for (int k = 0; k < nitems; ++k)
@@ -1053,14 +1174,14 @@ J tw_gen(std::uint64_t seed, int tier, long) {
         std::vector<int> first = main_pres[r.below(main_pres.size())];
         for (int k : virt_pres[r.below(virt_pres.size())])
             first.push_back(k);
-        for (int k = 20; k < 26; ++k)
+        for (int k = 20; k < 27; ++k)
             if (r.chance(0.7))
                 first.push_back(k);
         r.shuffle(first);
         for (int k : first)
             push("load", k);
         std::vector<int> defs;
-        for (int k = 26; k < nitems; ++k)
+        for (int k = 27; k < nitems; ++k)
             if (r.chance(0.6))
                 defs.push_back(k);
         r.shuffle(defs);
@@ -1071,7 +1192,7 @@ J tw_gen(std::uint64_t seed, int tier, long) {
         // definitions whose classes are not registered keep the registry
         // ill-formed: take some out again and retry
         for (int t = 0; t < 6; ++t) {
-            push("unload", 26 + (int)r.below(nitems - 26));
+            push("unload", 27 + (int)r.below(nitems - 27));
             push("update", -1);
             push("check", -1);
         }
